@@ -201,7 +201,7 @@ TCompiled ==
 TCutset ==
   /\ Ev("cutset")
   /\ LET cs == {SP(Rec[l].nodes[i]) : i \in DOMAIN Rec[l].nodes}  w == Me IN
-     /\ devs' = Add(devs, (IF Isolated /\ ~(I.long_arcs /\ cfg.dd = "pooled") /\ I.n <= 6 /\ wk[w].inp # None /\ wk[w].res # None
+     /\ devs' = Add(devs, (IF Isolated  /\ wk[w].inp # None /\ wk[w].res # None
                            THEN CutsetTags(I, HT, wk[w].inp, wk[w].res, cs) ELSE {})
                           \cup Tag(\E c \in cs : ~ExactSubProblem(I, c), "C08 node-not-exact"))
      /\ wk' = [wk EXCEPT ![w].phase = "enqueued"]
